@@ -3,14 +3,14 @@ CONSTANTS
   Bug = ""
   Fix = FALSE
   Sigma = {97}
-  PatLens = 1..34
+  PatLens = 1..20
   Dg = {0, 5}
   MaxDigits = 2
   WordAlphabet = {97, 98, 65}
   MaxWordLen = 3
   MaxMixedLen = 2
   MaxExcLen = 2
-  CodecWordLens = {2, 18, 35}
+  CodecWordLens = {2, 18, 21}
   NSlices = 1
   Slice = 0
   MaxP = 1
